@@ -35,6 +35,7 @@ func (c *mapCache) Get(k string) (int, bool) { c.mu.Lock(); defer c.mu.Unlock();
 func (c *mapCache) Set(k string, v int)      { c.mu.Lock(); defer c.mu.Unlock(); c.m[k] = v }
 
 type composeSlice struct {
+	onEvent func(name string)
 	now      int64
 	breakers []circuitbreaker.CircuitBreaker[int]
 	bulks    []bulkhead.Bulkhead[int]
@@ -61,11 +62,15 @@ func (s *composeSlice) reset() { *s = composeSlice{} }
 
 func (s *composeSlice) emit(name string, pos int, att, exe int) {
 	s.mu.Lock()
-	defer s.mu.Unlock()
 	if s.hasHedge {
 		s.log = append(s.log, fmt.Sprintf("%s@%d:%d/*", name, pos, att))
 	} else {
 		s.log = append(s.log, fmt.Sprintf("%s@%d:%d/%d", name, pos, att, exe))
+	}
+	hook := s.onEvent
+	s.mu.Unlock()
+	if hook != nil {
+		hook(name) // scripted cancellation point: the harness cancels from inside this very callback
 	}
 }
 
@@ -241,7 +246,11 @@ func (s *composeSlice) exec(t []string) string {
 		if !s.built {
 			s.build()
 		}
-		return s.run(t[0] == "runa", t[1], t[2])
+		x := ""
+		if len(t) > 3 {
+			x = t[3]
+		}
+		return s.run(t[0] == "runa", t[1], t[2], x)
 	}
 	return "bad-op"
 }
@@ -272,7 +281,9 @@ func parseScript(text string) []scriptItem {
 	return out
 }
 
-func (s *composeSlice) run(async bool, ck string, scriptText string) string {
+// run executes the stack once. x = "" or "x=<fn|sched|pre>:<k>:<ctx|async>": the execution is cancelled from inside the k-th
+// function invocation / the k-th OnRetryScheduled listener / before it starts, through its context or ExecutionResult.Cancel.
+func (s *composeSlice) run(async bool, ck string, scriptText string, x string) string {
 	script := parseScript(scriptText)
 	s.mu.Lock()
 	s.log = s.log[:0]
@@ -332,8 +343,46 @@ func (s *composeSlice) run(async bool, ck string, scriptText string) string {
 	}
 	var val int
 	var err error
+	var asyncRes failsafe.ExecutionResult[int]
+	asyncReady := make(chan struct{})
+	if strings.HasPrefix(x, "x=") {
+		f := strings.Split(x[2:], ":")
+		point, k, cause := f[0], int(atoi(f[1])), f[2]
+		cancelNow := func() {
+			if cause == "async" {
+				<-asyncReady
+				asyncRes.Cancel()
+			} else {
+				guardCancel()
+			}
+		}
+		want := map[string]string{"fn": "fn[", "sched": "rp.onRetryScheduled"}[point]
+		if point == "pre" {
+			guardCancel()
+		} else {
+			seen := 0
+			var hmu sync.Mutex
+			s.mu.Lock()
+			s.onEvent = func(name string) {
+				if !strings.HasPrefix(name, want) {
+					return
+				}
+				hmu.Lock()
+				seen++
+				fire := seen == k
+				hmu.Unlock()
+				if fire {
+					cancelNow()
+				}
+			}
+			s.mu.Unlock()
+			defer func() { s.mu.Lock(); s.onEvent = nil; s.mu.Unlock() }()
+		}
+	}
 	if async {
-		val, err = ex.GetWithExecutionAsync(fn).Get()
+		asyncRes = ex.GetWithExecutionAsync(fn)
+		close(asyncReady)
+		val, err = asyncRes.Get()
 	} else {
 		val, err = ex.GetWithExecution(fn)
 	}
@@ -529,7 +578,21 @@ func genCompose(r *rand.Rand, n int, tier string, emit func(string) string) {
 			if r.Intn(4) == 0 {
 				op = "runa"
 			}
-			emit(fmt.Sprintf("compose %s %s %s", op, pick(r, "-", "-", "k1", "k2", "''"), st))
+			x := ""
+			if !blockedSeen && r.Intn(4) == 0 {
+				// a scripted cancellation point (C08): inside the k-th invocation, inside the k-th OnRetryScheduled listener, or
+				// before the start (only where no select races an already-cancelled context: no bulkhead / limiter / hedge)
+				cause := "ctx"
+				if op == "runa" && r.Intn(2) == 0 {
+					cause = "async"
+				}
+				point := pick(r, "fn", "fn", "sched")
+				if cause == "ctx" && nbh == 0 && nrl == 0 && !hasHedge && r.Intn(4) == 0 {
+					point = "pre"
+				}
+				x = fmt.Sprintf(" x=%s:%d:%s", point, 1+r.Intn(3), cause)
+			}
+			emit(fmt.Sprintf("compose %s %s %s%s", op, pick(r, "-", "-", "k1", "k2", "''"), st, x))
 		}
 	}
 }
